@@ -20,8 +20,8 @@ def gen(ctx):
 
 def run(ctx):
     import logging
-    logging.getLogger("deep").setLevel(logging.CRITICAL + 1)
-    logging.getLogger().setLevel(logging.CRITICAL + 1)
+    from ..lib.quiet import quiet_logging
+    quiet_logging()
     ctx.rule = ("synthetic frames whose locals / watch values / captured value hold hostile objects (bytes, datetime, deque, "
                 "Enum, slotted objects, generators, iterators, raising __str__/__repr__/__getattr__/__len__, exceptions, "
                 "int/tuple/None-keyed dicts, lone surrogates, modules, classes, builtins) mixed with ordinary graphs; 1-3 "
